@@ -59,19 +59,21 @@ def make_ruleset(scene: dict, rules: list, scale: int = 1):
                    equivalence_groups=[])
 
 
-def project_protos(results, scale: int) -> list:
+def project_protos(results, scale: int, with_objects: bool = False):
     out = []
     for proto in results.protoclusters:
         defs = []
         for cds_result in results.cds_by_cluster[proto]:
             if cds_result.definition_domains.get(proto.product):
                 defs.append(int(cds_result.cds.get_name()[1:]))
-        out.append({"rule": proto.product,
-                    "core": unscale_loc(project.loc(proto.core_location), scale),
-                    "extent": unscale_loc(project.loc(proto.location), scale),
-                    "defs": sorted(defs)})
-    out.sort(key=lambda p: (p["rule"], p["core"]["parts"], p["extent"]["parts"]))
-    return out
+        out.append(({"rule": proto.product,
+                     "core": unscale_loc(project.loc(proto.core_location), scale),
+                     "extent": unscale_loc(project.loc(proto.location), scale),
+                     "defs": sorted(defs)}, proto))
+    out.sort(key=lambda pair: (pair[0]["rule"], pair[0]["core"]["parts"], pair[0]["extent"]["parts"]))
+    if with_objects:
+        return [pair[0] for pair in out], [pair[1] for pair in out]
+    return [pair[0] for pair in out]
 
 
 def detect(scene: dict, rules: list, scale: int = 1) -> list:
@@ -81,15 +83,26 @@ def detect(scene: dict, rules: list, scale: int = 1) -> list:
 
 
 def full_run(scene: dict, rules: list, scale: int = 1) -> dict:
-    """ detection -> protoclusters added -> candidates -> regions; everything projected """
+    """ detection -> protoclusters added -> candidates -> regions; everything projected.
+        Candidates carry their member protoclusters as 1-based indices into "protos", regions their candidates
+        as indices into "cands" and the genes they list. """
     record = make_record(scene, scale)
     results = detect_protoclusters_and_signatures(record, make_ruleset(scene, rules, scale))
-    protos = project_protos(results, scale)
+    protos, objects = project_protos(results, scale, with_objects=True)
+    index_of = {id(obj): idx + 1 for idx, obj in enumerate(objects)}
     results.annotate_cds_features()
     for proto in results.protoclusters:
         record.add_protocluster(proto)
+    # the defining genes as the record sees them (core gene functions inside the core)
+    for entry, obj in zip(protos, objects):
+        entry["defs"] = sorted(int(cds.get_name()[1:]) for cds in obj.definition_cdses)
     record.create_candidate_clusters()
     record.create_regions()
-    cands = [{"kind": str(c.kind), "loc": unscale_loc(project.loc(c.location), scale)} for c in record.get_candidate_clusters()]
-    regions = [{"kind": "region", "loc": unscale_loc(project.loc(r.location), scale)} for r in record.get_regions()]
+    real_cands = list(record.get_candidate_clusters())
+    cand_index = {id(c): idx + 1 for idx, c in enumerate(real_cands)}
+    cands = [{"kind": str(c.kind), "loc": unscale_loc(project.loc(c.location), scale),
+              "members": sorted(index_of[id(p)] for p in c.protoclusters)} for c in real_cands]
+    regions = [{"kind": "region", "loc": unscale_loc(project.loc(r.location), scale),
+                "cands": sorted(cand_index[id(c)] for c in r.candidate_clusters),
+                "kids": sorted(int(cds.get_name()[1:]) for cds in r.cds_children)} for r in record.get_regions()]
     return {"protos": protos, "cands": cands, "regions": regions}
